@@ -133,7 +133,7 @@ impl Property for C07 {
         ]
     }
     fn expected_probes(&self) -> Vec<&'static str> {
-        vec!["ula_read", "ula_write", "paging_write", "ay_select", "ay_data", "ay_read", "kempston_read", "mouse_read", "extender_read", "extender_write", "floating_border", "floating_fetch", "unclaimed_write", "multi_device_skipped", "paging_alias", "ay_alias", "ear_follows_tape", "floating_exact", "extender_installed_late", "extender_replaced", "extender_claims_changed", "snapshot_loaded_midrun", "ula_same_value_again", "ay_disabled_in_settings", "ay_toggled_by_setter", "extender_only_port", "extender_overrides_builtin", "szx_loaded_midrun", "paging_write_while_locked"]
+        vec!["ula_read", "ula_write", "paging_write", "ay_select", "ay_data", "ay_read", "kempston_read", "mouse_read", "extender_read", "extender_write", "floating_border", "floating_fetch", "unclaimed_write", "multi_device_skipped", "paging_alias", "ay_alias", "ear_follows_tape", "floating_exact", "extender_installed_late", "extender_replaced", "extender_claims_changed", "snapshot_loaded_midrun", "ula_same_value_again", "ay_disabled_in_settings", "ay_toggled_by_setter", "extender_only_port", "extender_overrides_builtin", "szx_loaded_midrun", "paging_write_while_locked", "floating_exact_stretched_cycle"]
     }
 
     fn gen(&self, rng: &mut Rng, _tier: Tier, _idx: u64) -> Scenario {
@@ -421,6 +421,7 @@ impl Property for C07 {
             let is_ext = claimed.contains(&port);
             let (devs, dontcare) = selected(&conf, port, write);
             let got = cpu_io(&mut e, port, if write { Some(v) } else { None })?;
+            let t_end = e.verif_frame_clocks() as u64;
             ctx.units += 1;
             ctx.sim_t += 12;
             let mut h = Fnv::new();
@@ -700,6 +701,31 @@ impl Property for C07 {
                             let far = tr + 12 < ula.t0 || d / ula.line >= 192 || (x >= 128 + 8 && x + 12 + 8 < ula.line);
                             if far {
                                 allowed = vec![0xFF];
+                            }
+                        }
+                        // a port cycle the ULA stretches (contended high byte) still samples the bus in its last T-state:
+                        // that moment is known from the machine's own clock at the end of the instruction (the length
+                        // of such cycles is C04's matter), and the ULA's fetch schedule says what is on the bus then
+                        if t_end > t + 11 && t_end < f {
+                            ctx.probe("floating_exact_stretched_cycle");
+                            let ts = t_end - 1;
+                            let first = ula.t0 + 3;
+                            let mut expv = 0xFFu8;
+                            if ts >= first {
+                                let x = ts - first;
+                                let line = (x / ula.line) as usize;
+                                let c = x % ula.line;
+                                if line < 192 && c < 128 && c & 4 == 0 {
+                                    let col = ((c / 8) * 2 + (c % 8) / 2) as usize;
+                                    expv = if c % 2 == 0 { screen_byte(line, col) } else { attr_byte(line / 8, col) };
+                                }
+                            }
+                            if got != expv {
+                                return Err(Fail::new(
+                                    "C07.floating_bus",
+                                    &format!("machine={},beam={},exact=2", machine, beam),
+                                    format!("IN {:04X} (no device selected, port cycle stretched by the ULA) started at T={} and ended at T={} (bus sampled at T={}): returned {:02X}, the ULA fetch schedule gives {:02X}", port, t, t_end, ts, got, expv),
+                                ));
                             }
                         }
                         if !allowed.contains(&got) {
